@@ -42,6 +42,7 @@ def run(tier):
     run_script(c, exe, script, "R")
     # ---- T1: random printable words, random quoting
     g = Gen(SEED * 7 + 7)
+    g.empty_str = False        # an empty word cannot be written with the backslash scheme, and C07's splitting clause speaks of non-empty words
     r_ = g.r
     blocks = []
     acts = []
